@@ -6,6 +6,7 @@ import (
 	"encoding/json"
 	"errors"
 	"fmt"
+	ingestclient "github.com/ipni/go-libipni/ingest/client"
 	"io"
 	"net/http"
 	"net/url"
@@ -413,6 +414,7 @@ func runC10(r *simkit.Run, c Cfg) {
 		r.Probe("duplicate-announce-url")
 	}
 	sender := must(httpsender.New(given, pub.ID, sopts...))
+	ingest := must(ingestclient.New("http://" + urls[0].Host))
 	faulty := tp.Chance(1, 2, "faulty")
 	var cancelCur context.CancelFunc
 	type plan struct{ kind string }
@@ -499,12 +501,24 @@ func runC10(r *simkit.Run, c Cfg) {
 			ctx, cancel := context.WithCancel(context.Background())
 			cancelCur = cancel
 			var err error
-			how := tp.Choose(3, "how")
+			ingestOnly := false
+			how := tp.Choose(4, "how")
+			if how == 3 && faulty {
+				how = 0 // (the ingest client has no time limit of its own: fault-free runs only)
+			}
 			switch how {
 			case 0:
 				err = sender.Send(ctx, m)
 			case 1:
 				err = sender.SendJson(ctx, m)
+			case 3:
+				// the ingest client's own announce call: to the first
+				// endpoint, the publisher ID appended to each address, no
+				// extra data
+				m.ExtraData, m.OrigPeer = nil, ""
+				ingestOnly = true
+				err = ingest.Announce(ctx, &peer.AddrInfo{ID: pub.ID, Addrs: maddrs}, m.Cid)
+				r.Probe("ingest-client-announce")
 			default:
 				// the package-level helper builds the message itself
 				m.ExtraData, m.OrigPeer = nil, ""
@@ -519,8 +533,13 @@ func runC10(r *simkit.Run, c Cfg) {
 			}
 			// expectation: what every healthy endpoint decoded
 			want := message.Message{Cid: m.Cid, ExtraData: m.ExtraData, OrigPeer: m.OrigPeer}
-			if len(extra) != 0 {
+			if len(extra) != 0 && !ingestOnly {
 				want.ExtraData = extra
+			}
+			if ingestOnly && len(maddrs) == 0 {
+				// without addresses the ingest client still says who the
+				// publisher is: a bare /p2p/<publisher> address
+				want.Addrs = append(want.Addrs, must(multiaddr.NewMultiaddr("/p2p/"+pub.ID.String())).Bytes())
 			}
 			for _, a := range maddrs {
 				if pathAddr && a.String() == "/unix/tmp/ipni.sock" {
@@ -554,7 +573,7 @@ func runC10(r *simkit.Run, c Cfg) {
 					r.Violate("c10.wire", "endpoint %s decoded cid-equal=%v addrs=%d extra=%d orig=%q; sent addrs=%d extra=%d orig=%q (each address must carry /p2p/<publisher>)", e.name, got.Cid == want.Cid, len(got.Addrs), len(got.ExtraData), got.OrigPeer, len(want.Addrs), len(want.ExtraData), want.OrigPeer)
 				}
 				if decoded {
-					if as, e2 := got.GetAddrs(); e2 != nil || len(as) != len(maddrs) {
+					if as, e2 := got.GetAddrs(); e2 != nil || len(as) != len(want.Addrs)+map[bool]int{true: 1, false: 0}[pathAddr] {
 						r.Violate("c10.wire", "decoded addresses do not parse back: %v", e2)
 					}
 				}
